@@ -371,7 +371,12 @@ class Gen:
         if kind == "slotdecl":
             return self.gen_slot(cname, usable, scope, depth, s)
         if kind == "repeat" and self.slots[cname]:
-            return self.gen_slot(cname, usable, scope, depth, r.choice(self.slots[cname]))
+            s2 = r.choice(self.slots[cname])
+            # a repeated slot tag may carry DIFFERENT flags than the first tag of that name: the `default` / `required`
+            # flags are per tag (flags are only ever dropped here, so "one default slot name per component" still holds)
+            if r.random() < 0.4:
+                s2 = (s2[0], s2[1] and r.random() < 0.3, s2[2] and r.random() < 0.5, s2[3])
+            return self.gen_slot(cname, usable, scope, depth, s2)
         if kind == "text" or depth >= self.maxdepth:
             return [self.text()] if self.r.random() > self.p_probe else [("text", "^"), self.probe()]
         if kind == "out":
